@@ -77,9 +77,13 @@ class Backend_get_resource:
         parent = resource_at(posixpath.normpath(posixpath.split(n)[0]))
         name = posixpath.split(n)[1]
         is_dir = fs_isdir(self.path, n)
-        return implies(n != "/" and not is_dir,
+        return implies(n != "/" and not is_dir and not in_git_dir(n),
                        result == (None if parent is None or "{DAV:}collection" not in parent.resource_types
                                   else member_of(parent, name)))
+
+    def ensures_git_dir_is_no_resource(self, relpath, result):
+        # C01 / C13: nothing inside a repository's control directory is addressable
+        return implies(in_git_dir(posixpath.normpath(relpath)), result is None)
 
     def names_result(self, relpath, result):
         # resource_at(p) is by definition what get_resource returns for the normalised path p
@@ -87,6 +91,11 @@ class Backend_get_resource:
 
     def ensures_raise(self):
         return fs_paths_under(self.path)
+
+
+def in_git_dir(n):
+    # some path segment is '.git'
+    return n != "/" and ".git" in n.split("/")
 
 
 @contract("xandikos.web.XandikosBackend.create_collection",
